@@ -116,14 +116,19 @@ type c09Cfg struct {
 // explored history without the "long" step and far shorter than that step.
 func c09Configs(counts []uint) (cfgs []c09Cfg) {
 	lens := [][4]int{{24, 48, 30, 30}, {32, 128, 30, 60}, {8, 16, 60, 30}}
-	for _, l := range lens {
-		for _, n := range counts {
-			for _, bc := range []uint{1, 2} {
-				for _, refuse := range []bool{true, false} {
-					cfgs = append(cfgs, c09Cfg{
-						Len4: l[0], Len6: l[1], N4: n, N6: n%3 + 1, BC: bc, Refuse: refuse,
-						PeriodS: l[2], DurationS: l[3],
-					})
+	for _, deep := range []bool{true, false} {
+		for _, l := range lens {
+			for _, n := range counts {
+				for _, bc := range []uint{1, 2} {
+					for _, refuse := range []bool{true, false} {
+						c := c09Cfg{
+							Len4: l[0], Len6: l[1], N4: n, N6: n%3 + 1, BC: bc, Refuse: refuse,
+							PeriodS: l[2], DurationS: l[3],
+						}
+						if c.deep() == deep {
+							cfgs = append(cfgs, c)
+						}
+					}
 				}
 			}
 		}
@@ -131,6 +136,11 @@ func c09Configs(counts []uint) (cfgs []c09Cfg) {
 
 	return cfgs
 }
+
+// deep reports whether c is one of the configurations that the thorough tier
+// explores one event deeper; they come first so that they are spread over the
+// shards.
+func (c c09Cfg) deep() (ok bool) { return c.Len4 != 8 && c.N4 <= 2 }
 
 // c09Long is the "long quiet gap".  It is kept small in absolute terms because
 // all histories of a process share one virtual clock.
@@ -292,7 +302,10 @@ func c09RunBackoff(r *vrt.Run, c c09BkCase, classes bool) (fs []vrt.Finding, out
 		m.Observe(drop, e.Size)
 	}
 	now := time.Now()
-	digest = fmt.Sprintf("%+v dyn=%v\n%s\n#%s", c.Cfg, dynOn, VerifDump(l, now), m.Key(now.UnixNano()))
+	digest = VerifDump(l, now) + "\n#" + m.Key(now.UnixNano())
+	if !dynOn {
+		digest += "\ndyn-off"
+	}
 
 	return nil, outcomes, digest
 }
@@ -323,6 +336,7 @@ func c09IsStep(ei int) (ok bool) {
 func c09BFS(r *vrt.Run, expired *atomic.Bool, cfg c09Cfg, depth, nAlpha int) {
 	seen := map[[20]byte]struct{}{}
 	frontier := [][]uint8{{}}
+	cfgID := fmt.Sprintf("%+v\n", cfg)
 	for d := 1; d <= depth && len(frontier) > 0; d++ {
 		var next [][]uint8
 		for _, h := range frontier {
@@ -367,7 +381,7 @@ func c09BFS(r *vrt.Run, expired *atomic.Bool, cfg c09Cfg, depth, nAlpha int) {
 					continue
 				}
 				seen[k20] = struct{}{}
-				r.State(digest)
+				r.State(cfgID + digest)
 				if d < depth {
 					nh := make([]uint8, d)
 					copy(nh, h)
@@ -442,11 +456,13 @@ func c09RunIso(r *vrt.Run, c c09BkCase) (fs []vrt.Finding) {
 
 func TestVerifC09Backoff(t *testing.T) {
 	r := vrt.Start("C09")
-	depth := vrt.Pick(r, 5, 7)
+	depth := vrt.Pick(r, 5, 6)
+	deepDepth := vrt.Pick(r, 5, 7)
 	nAlpha := vrt.Pick(r, c09QuickAlpha, len(c09Alphabet))
 	isoDepth := vrt.Pick(r, 4, 5)
 	cfgs := c09Configs([]uint{1, 2, 3})
 	r.Bound("backoff_depth", depth)
+	r.Bound("backoff_depth_for_the_16_configs_with_key_lengths_24/48_or_32/128_and_count<=2", deepDepth)
 	r.Bound("backoff_alphabet", nAlpha)
 	r.Bound("backoff_configs", len(cfgs))
 	r.Bound("isolation_depth", isoDepth)
@@ -471,7 +487,11 @@ func TestVerifC09Backoff(t *testing.T) {
 		case r.ShouldRun():
 			for _, cfg := range cfgs {
 				if r.Mine() {
-					c09BFS(r, expired, cfg, depth, nAlpha)
+					if cfg.deep() {
+						c09BFS(r, expired, cfg, deepDepth, nAlpha)
+					} else {
+						c09BFS(r, expired, cfg, depth, nAlpha)
+					}
 				}
 			}
 		}
